@@ -1,3 +1,6 @@
+#[cfg(mmtk_verif)]
+use crate::util::verif::sync::AtomicUsize;
+#[cfg(not(mmtk_verif))]
 use std::sync::atomic::AtomicUsize;
 use std::sync::atomic::Ordering;
 
